@@ -34,8 +34,8 @@ FUNCTIONS = [
 ]
 MUST_REACH = ["mbox.Mailbox.management_task", "mbox.Mailbox.command_can_proceed", "mbox.Mailbox.would_conflict", "parse.IMAPClientCommand.ready_and_okay", "mbox.Mailbox.copy", "client.Authenticated.do_move"]
 BOUNDS = {
-    "quick": {"commands": "pairs from a menu of 14 (2 sessions x 1 command)", "schedule": "first 4 scheduling decisions symbolic, each choosing among (up to 3 of) the ready callbacks, FIFO afterwards", "messages": "3 in inbox, 2 in other"},
-    "thorough": {"schedule": "first 6 decisions symbolic", "commands": "plus 3-session triples"},
+    "quick": {"commands": "pairs from a menu of 14 (2 sessions x 1 command)", "schedule": "first 4 scheduling decisions symbolic, each choosing among (up to 3 of) the ready callbacks, FIFO afterwards", "messages": "3 in inbox, 2 in other", "conflict_step": "new command kind x 2 executing command kinds (15^3), message sets over 2 messages, peek flags, \\Deleted empty or not; both orders of the executing list"},
+    "thorough": {"schedule": "first 6 decisions symbolic", "commands": "plus 3-session triples", "conflict_step": "message sets over 3 messages"},
 }
 SYMBOLIC = ["scheduling decisions", "sequence number of the second command"]
 REALISED = ["decisions are used as list indices: the decision tree enumerates them (bounded by the number of ready callbacks)"]
@@ -143,7 +143,7 @@ _SEQ = {}
 def pair_step(d0: int, d1: int, d2: int, d3: int, d4: int, d5: int, d6: int, d7: int, s: int) -> bool:
     """
     pre: 0 <= d0 < 3 and 0 <= d1 < 3 and 0 <= d2 < 3 and 0 <= d3 < 3 and 0 <= d4 < 3 and 0 <= d5 < 3 and 0 <= d6 < 3 and 0 <= d7 < 3
-    pre: 1 <= s <= 3
+    pre: 1 <= s <= 3 and (core.PARAMS.get("s") is None or s == core.PARAMS["s"])
     pre: all(x == 0 for x in [d0, d1, d2, d3, d4, d5, d6, d7][core.PARAMS["D"]:])
     post: _
     """
@@ -186,17 +186,33 @@ CKINDS = ["noop", "select", "status", "examine", "search", "fetch", "store", "co
 def _fake_cmd(kind, bits, peek):
     from asimap.parse import IMAPClientCommand
 
-    c = IMAPClientCommand("x " + kind.upper())
+    class _Cmd(IMAPClientCommand):
+        # the message set is materialised only when would_conflict() looks at it, so that the
+        # selectors of commands whose sets are never consulted stay undecided (no path split)
+        @property
+        def msg_set_as_set(self):
+            if self._set is None:
+                self._set = {i + 1 for i, b in enumerate(self._bits) if b}
+            return self._set
+
+        @msg_set_as_set.setter
+        def msg_set_as_set(self, v):
+            self._set = v if v else None
+
+    c = _Cmd("x " + kind.upper())
+    c._bits = bits
+    c._set = None
     c.command = kind
-    c.msg_set_as_set = {i + 1 for i, b in enumerate(bits) if b}
     c.fetch_peek = peek
     return c
 
 
 def conflict_step(kn: int, k1: int, k2: int, n1: bool, n2: bool, n3: bool, a1: bool, a2: bool, a3: bool, b1: bool, b2: bool, b3: bool, pn: bool, pa: bool, pb: bool, dels: bool, swap: bool) -> bool:
     """
-    pre: 0 <= kn < 15 and 0 <= k1 < 15 and 0 <= k2 < 15
+    pre: 0 <= kn < 15 and 0 <= k1 < 15 and 0 <= k2 < 15 and not swap
     pre: core.PARAMS.get("kn") is None or kn == core.PARAMS["kn"]
+    pre: core.PARAMS.get("k1") is None or k1 == core.PARAMS["k1"]
+    pre: core.PARAMS.get("nmsg", 3) >= 3 or not (n3 or a3 or b3)
     post: _
     """
     return held(_conflict_step, locals())
@@ -212,6 +228,8 @@ def _conflict_step(kn, k1, k2, n1, n2, n3, a1, a2, a3, b1, b2, b3, pn, pa, pb, d
 
     kn, k1, k2 = core.pick(kn, 0, 15), core.pick(k1, 0, 15), core.pick(k2, 0, 15)
     srv = env.new_world()
+    if CKINDS[kn] not in ("close", "expunge"):
+        dels = False  # only CLOSE/EXPUNGE admission reads the \\Deleted sequence
     mb = env.make_mailbox(srv, "inbox", [1, 2, 3], [1, 2, 3], {"Seen": {1, 2, 3}, "Deleted": {2} if dels else set()})
     new = _fake_cmd(CKINDS[kn], (n1, n2, n3), pn)
     e1 = _fake_cmd(CKINDS[k1], (a1, a2, a3), pa)
@@ -224,14 +242,17 @@ def _conflict_step(kn, k1, k2, n1, n2, n3, a1, a2, a3, b1, b2, b3, pn, pa, pb, d
         except RuntimeError:
             return "unsupported"
 
-    both = wc([e2, e1] if swap else [e1, e2])
+    both = wc([e1, e2])
+    other_order = wc([e2, e1])
+    check(both == other_order, "C10/conflict_step/admission_depends_on_order_of_executing_commands", new=CKINDS[kn], executing=[CKINDS[k1], CKINDS[k2]], a=both, b=other_order)
     one = wc([e1])
     two = wc([e2])
     reached()
     if "unsupported" in (both, one, two):
         check(both == one == two, "C10/conflict_step/unsupported_command_handling_depends_on_list", new=CKINDS[kn])
         return
-    check(both == (one or two), "C10/conflict_step/admission_not_the_disjunction_of_pairwise_conflicts", new=CKINDS[kn], executing=[CKINDS[k1], CKINDS[k2]], sets=[sorted(new.msg_set_as_set), sorted(e1.msg_set_as_set), sorted(e2.msg_set_as_set)], both=both, one=one, two=two, swap=swap)
+    if both != (one or two):  # (the context forces the sets: evaluate it on failure only)
+        check(False, "C10/conflict_step/admission_not_the_disjunction_of_pairwise_conflicts", new=CKINDS[kn], executing=[CKINDS[k1], CKINDS[k2]], sets=[sorted(new.msg_set_as_set), sorted(e1.msg_set_as_set), sorted(e2.msg_set_as_set)], both=both, one=one, two=two, swap=swap)
     check(wc([]) is False, "C10/conflict_step/conflict_with_nothing_executing", new=CKINDS[kn])
     # a command that changes the mailbox as a whole never runs beside anything, and nothing runs beside it
     if CKINDS[k1] in ("append", "check", "close", "expunge", "move", "delete", "rename"):
@@ -251,9 +272,15 @@ def jobs(tier):
     D = 4 if q else 6
     js = []
     for kn in range(len(CKINDS)):
-        js.append({"name": f"conflict_step[{CKINDS[kn]}]", "fn": "conflict_step", "params": {"kn": kn}, "timeout": T, "per_path": 60})
+        if q:
+            js.append({"name": f"conflict_step[{CKINDS[kn]}]", "fn": "conflict_step", "params": {"kn": kn, "nmsg": 2}, "timeout": T, "per_path": 60})
+        else:
+            for k1 in range(len(CKINDS)):
+                js.append({"name": f"conflict_step[{CKINDS[kn]},{CKINDS[k1]}]", "fn": "conflict_step", "params": {"kn": kn, "k1": k1, "nmsg": 3}, "timeout": T, "per_path": 60})
     for i, p in enumerate(PAIRS):
-        js.append({"name": f"pair_step[{p[0]},D={D}]", "fn": "pair_step", "params": {"pair": i, "D": D}, "timeout": T, "per_path": 120, "unblock": ("sqlite3.connect", "sqlite3.connect/handle")})
+        uses_s = "{s}" in p[1][1] or "{s}" in p[2][1]
+        for sv in (1, 2, 3) if uses_s else (1,):
+            js.append({"name": f"pair_step[{p[0]},D={D},s={sv}]", "fn": "pair_step", "params": {"pair": i, "D": D, "s": sv}, "timeout": T, "per_path": 120, "unblock": ("sqlite3.connect", "sqlite3.connect/handle")})
     return js
 
 
